@@ -85,6 +85,23 @@ planted chain slot -> cell -> ... -> target (intermediate results are pointers o
 NUL-terminated bytes for `char`, int.from_bytes for integers, the reference parse otherwise; null and beyond-the-data at every level), stream unmoved,
 repeated dereference, `p + k`, dumps, stream-less null; typedef'd pointer types read on their own with the stream at their slot.  The last-level
 dereferences go to the Lean model, every text to the model of the definition parser (`parsedecls`: pointer depth, name, dimensions per declarator).
+
+Attribute access through pointers (harness/v10_c16.py, attr_forwarding): `ptr.member`, the implicit dereference of Pointer.__getattr__, for generated
+target structures / unions whose member names are legal C but unusual Python: leading underscores (`_flags`, `_reserved`, `__vftable`, `_`, `__`, `_0`,
+generated `_` / `__` + word + `_`), dunder-like and protocol-probe names (`__x__`, `__copy__`, `_repr_html_`, `__wrapped__`, `__name__`, `__mro__`),
+names of metaclass attributes and keywords (`read`, `reads`, `mro`, `name`, `class`, `None`) and names the pointer object has itself as an `int` /
+cstruct type instance (`real`, `numerator`, `bit_length`, `type`, `size`, `dumps`, `dereference` ...; the PUBLIC ones - the pointer's private slots are left alone); members are integers, `char[k]`, links
+`X *` and nested structures; packed / aligned; load, two loads or the API (cs._make_struct / add_field / add_type).  The holder is parsed from a BytesIO
+(T(s), T.read(s), cs.read) or bytes / bytearray / memoryview; pointers walked: members, array elements, a pointer inside a nested structure, the inner
+pointer of `X **`, `X **` itself (forwarding over two hops), a pointer typedef read on its own, results of pointer arithmetic (also from null and back
+to null), links reached THROUGH forwarding, stream-less pointers; access through getattr / operator.attrgetter / __getattr__ / getattr with default /
+hasattr, stream parked at random positions, cache cold or warm.  Oracle: a table pinned on the unmodified library says which names the pointer object
+has itself (never dereferences - no error on null / wild pointers -; real == numerator == the address, imag == 0, bit_length() ..., `type` the target
+class, `size` the configured width, dumps() the address bytes); every other name is forwarded: null / no stream -> NullPointerDereference (hasattr lets
+it through), a record that does not fit -> what parsing X there raises, otherwise the member of the record at that absolute offset computed from the
+image bytes by the harness's own layout, == getattr(reference parse at that offset, name) == getattr(ptr.dereference(), name); a name X does not have ->
+AttributeError / hasattr False / the default; stream unmoved, second access the same, a forwarded link is a pointer to X on the same stream (a link
+inside a union: known finding F11).  First-hop dereferences of the packed structures go to the Lean model.
 """
 from __future__ import annotations
 
@@ -98,6 +115,7 @@ from .. import v4_c16 as v4
 from .. import v6_c16 as v6
 from .. import v8_c16 as v8
 from .. import v9_c16 as v9
+from .. import v10_c16 as v10
 from ..common import A, Case, Result, mkrng, parse_sexp, run_driver, sx
 
 PTRS = dict(s2_ptr.ALL_PTRS)   # uint8 .. uint128, packable and not
@@ -153,6 +171,15 @@ def run(env) -> Result:
                 "record size follow (independent layout), values == the unsigned integers planted, dereferencing level by level follows the planted chain (intermediate pointers of the promised class "
                 "holding the cell's integer; the target: NUL-terminated bytes for char, int.from_bytes for integers, the reference parse otherwise; null / beyond-the-data at every level), stream "
                 "unmoved, stable, p + k, dumps, stream-less null; the definition parser's model (parsedecls) compared per declarator; 7 widths x {<,>} x {interpreted, compiled}. "
+                "Attribute access through pointers (ptr.member, Pointer.__getattr__): generated target structures / unions whose member names are leading-underscore names (_flags, __vftable, _, __, _0 ...), "
+                "dunder-like / protocol-probe names (__x__, __copy__, _repr_html_, __name__, __mro__), metaclass-attribute names and keywords (read, reads, mro, name, class, None) and names of the pointer "
+                "object's own public int / type attributes (real, numerator, bit_length, type, size, dumps, dereference ...); members: integers, char[k], links X *, nested structures; packed/aligned; load / two loads / "
+                "API construction; holder from BytesIO (T(s), T.read, cs.read) or bytes / bytearray / memoryview; pointers: members, array elements, inside a nested structure, inner pointer of X **, X ** itself "
+                "(two hops), a pointer typedef read on its own, arithmetic results (through null as well), links reached through forwarding, stream-less; access by getattr / attrgetter / __getattr__ / getattr "
+                "default / hasattr: own names (pinned table) never dereference and give the address-derived values (real == numerator == address, imag == 0, bit_length(), type, size, dumps()); every other name: "
+                "null / no stream -> NullPointerDereference, record beyond the data -> the parse's exception, else == the member computed from the image bytes (independent layout) == getattr(reference parse at "
+                "that offset, name) == getattr(ptr.dereference(), name), missing name -> AttributeError / False / default; stream unmoved, stable, forwarded link is a pointer to X on the same stream; model "
+                "compared on the first hop; 7 widths x {<,>} x {interpreted, compiled}. "
                 "distinct = (config, target, address, data); non-trivial = non-null address (failed-dereference family: the access fails with something other than EOFError)")
     dc = impl.dc()
     rnd = mkrng(env["seed"], "c16")
@@ -461,6 +488,9 @@ def run(env) -> Result:
     # members, arrays and typedefs, through load / loadfile / two loads / chained load; one-level members through the legacy parser (own PRNG streams)
     v9.declarator_spellings(dc, env, res, viol, mkrng(env["seed"], "c16-declarator-spellings"), lines, metas)
     v9.legacy_spellings(dc, env, res, viol, mkrng(env["seed"], "c16-legacy-spellings"))
+    # ---- attribute access through pointers: ptr.member for member names with leading underscores, dunder-like names, names of the pointer
+    # object's own attributes; every kind of pointer source, five access conventions (own PRNG stream)
+    v10.attr_forwarding(dc, env, res, viol, mkrng(env["seed"], "c16-attr-forwarding"), lines, metas)
     # pointer inside a fixed-size union (finding F11): the dereference must read the outer stream
     for pname, endian in itertools.product(("uint16", "uint32"), "<>"):
         cs = dc.cstruct(endian=endian, pointer=pname)
